@@ -627,6 +627,15 @@ def gen_scenarios(rng: random.Random, tier: str, struct):
                           chunk_cs=rng.choice(["record", "coalesce", "random"]), chunk_sc=rng.choice(list(CHUNKINGS)),
                           payload_c=big, payload_s=rng.choice([[10], [3, 0, 200]]), recv_c=rng.choice(recv_sizes),
                           recv_s=rng.choice([[65536], [16384], [20000]]), initiator="client", mode="duplex_reply"))
+    # 4e. full duplex: one send() producing several hundred KiB of ciphertext (the transport takes it in pieces over many
+    #     scheduling steps) WHILE the peer keeps sending small messages that the reader task of the same end receives:
+    #     every flush site runs while another task's transport.send() is in flight (seed C17 h)
+    for version in ("1.2", "1.3"):
+        for big in ([300000], [100000, 70000]):
+            out.append(mk(version=version, std_c=True, std_s=True,
+                          chunk_cs=rng.choice(["record", "random"]), chunk_sc=rng.choice(["record", "random", "one"]),
+                          payload_c=big, payload_s=[rng.choice([1, 50, 700])] * 40, recv_c=rng.choice([[100], [65536]]),
+                          recv_s=rng.choice([[65536], [16384], [1000]]), initiator="client"))
     # 4c. receive() inside an already cancelled scope must not consume anything
     for version in ("1.2", "1.3"):
         for ch in ("coalesce", "record", "random"):
